@@ -106,7 +106,13 @@ func runStorage(r Round) *outcome {
 
 	rc := newRace("memory-storage")
 	for i := 0; i < r.Closers; i++ {
-		rc.spin(kindCloser, "Close", func() { st.Close() })
+		rc.spin(kindCloser, "Close", func() {
+			st.Close()
+			if mine.get() != 1 { // Close returned => released, for every caller
+				rc.fail("C16/memory-storage/close-returned-before-cleanup-finished",
+					fmt.Sprintf("a Close call returned with the registered cleanup handler run %d times", mine.get()))
+			}
+		})
 	}
 	opsRun := func(seed int) func() {
 		return func() {
